@@ -3,11 +3,13 @@
 package verifharness
 
 import (
+	"bytes"
 	"context"
 	"errors"
 	"fmt"
 	"os"
 	"path/filepath"
+	"strings"
 	"sync"
 	"time"
 
@@ -426,6 +428,33 @@ func (h *RunHarness) Cli(id string, init bool) error {
 		controller.VerifTrace = h.onTrace
 	}
 	h.Rec.Emit(Ev{"ev": name, "fan": id, "hasData": h.hasData(st), "hasMap": h.hasMap(st), "err": err != nil})
+	return err
+}
+
+// CliReset runs the real `fan2go fan --id <id> reset` in a child process (cmd.Execute) on a
+// configuration file that names the same database and the same fan ids.
+func (h *RunHarness) CliReset(id string) error {
+	var b strings.Builder
+	fmt.Fprintf(&b, "dbPath: %s\nfans:\n", configuration.CurrentConfig.DbPath)
+	tmp := filepath.Join(h.Cfg.Dir, "cli_tmp")
+	_ = os.WriteFile(tmp, []byte("100"), 0644)
+	for _, fid := range h.ord {
+		fmt.Fprintf(&b, "  - id: %s\n    curve: cli_c\n    file:\n      path: %s\n", fid, tmp)
+	}
+	fmt.Fprintf(&b, "sensors:\n  - id: cli_s\n    file:\n      path: %s\ncurves:\n  - id: cli_c\n    linear:\n      sensor: cli_s\n      min: 40\n      max: 80\n", tmp)
+	cfgPath := filepath.Join(h.Cfg.Dir, "cli.yaml")
+	if err := os.WriteFile(cfgPath, []byte(b.String()), 0644); err != nil {
+		return err
+	}
+	var out bytes.Buffer
+	cmd := StartChild("cli", []string{"fan", "--id", id, "-c", cfgPath, "reset"}, filepath.Join(h.Cfg.Dir, "nohwmon"), filepath.Join(h.Cfg.Dir, "cli.trace"), &out)
+	code, _, timedOut := waitExit(cmd, 30*time.Second)
+	st := h.fs[id]
+	var err error
+	if code != 0 || timedOut {
+		err = fmt.Errorf("fan reset exited %d: %s", code, out.String())
+	}
+	h.Rec.Emit(Ev{"ev": "CliReset", "fan": id, "hasData": h.hasData(st), "hasMap": h.hasMap(st), "err": err != nil, "real": true})
 	return err
 }
 
